@@ -6,7 +6,8 @@ CONSTANTS
   GCap = 2
   Unit = 2
   MaxTick = 3
-  Strict = "none"
+  AtomicTenantGlobal = TRUE
+  Strict = "all"
   Bug = "none"
 INIT Init
 NEXT Next
